@@ -333,3 +333,31 @@ def resp_var(repo, f):
         if st is not None and isinstance(st.targets[0], ast.Tuple) and len(st.targets[0].elts) == 2 and all(isinstance(x, ast.Name) for x in st.targets[0].elts):
             return st.targets[0].elts[0].id, st.targets[0].elts[1].id
     raise AnalysisError("`resp, environ = wsgi.create(..)` not found in %s" % f.qualname)
+
+
+class MultiAlias:
+    """evaluate a sibling property's rules under this property's rule ids (mapping old id -> new id)"""
+
+    def __init__(self, ctx, mapping):
+        self._ctx, self._map = ctx, mapping
+
+    def __getattr__(self, n):
+        return getattr(self._ctx, n)
+
+    def _m(self, rid):
+        return self._map.get(rid, rid)
+
+    def ok(self, rid, *a, **k):
+        return self._ctx.ok(self._m(rid), *a, **k)
+
+    def bad(self, rid, *a, **k):
+        return self._ctx.bad(self._m(rid), *a, **k)
+
+    def check(self, rid, cond, *a, **k):
+        return self._ctx.check(self._m(rid), cond, *a, **k)
+
+    def floor(self, rid, *a, **k):
+        return self._ctx.floor(self._m(rid), *a, **k)
+
+    def rule(self, *a, **k):
+        pass
